@@ -36,6 +36,10 @@ CHECKS = {
    text="invariant monitor at the probe (every colour value produced by any workload: integer r/g/b in [0,255], alpha in [0,1]); all 148 named colours against the CSS Color 4 table embedded in the monitor and across spellings (name, hex, rgb(), rgba(), hsl(), hwb(), upper case: ==, equal channels, identical compressed text); all 4096 short-hex colours; hsl/hwb round trips, invert/complement involutions and identity-at-0 laws evaluated inside the compiler over a lattice of the 8-bit cube with +-1 neighbours (thorough: the whole 2^24 cube sharded by red channel); opacify/transparentize, scale/adjust/change-color and out-of-range arguments against their definitions",
    note="laws are evaluated by the compiler itself and only mismatches are reported through the probe; out-of-range arguments may be clamped or rejected, never kept",
    technique="runtime monitoring: invariant-at-hook over probe-observed colour values + law/round-trip oracle, exhaustive over names and short hex (thorough: the 8-bit cube)"),
+ "C07": dict(engine="vw+vp",
+   text="reference oracles independent of grass over boundary-seeking doubles: literals must parse to the nearest double (exact bits through the probe); + - * math.div and unary minus bit-exact vs IEEE arithmetic on the observed operand values, % vs the Sass rule; three-valued 1e-11 tolerance oracle for == != < <= > >=, round/ceil/floor/abs and integer acceptance in nth()/@for; sass:math vs Python math; every value printed in both styles and compared with the correctly rounded 10-digit decimal (decimal module), notation rules and re-reading",
+   note="tolerance oracle is three-valued near the 1e-11 boundary; both double-precision realisations of Sass modulo are accepted; half-up and half-even accepted on exact decimal ties",
+   technique="runtime monitoring: reference-model oracles (IEEE/decimal/libm) over probe-observed f64 bit patterns and printed text"),
 }
 
 ALL = ["C%02d" % i for i in range(1, 21)]
